@@ -488,6 +488,8 @@ fn harness_notes(ix: &Ix, f: &mut Findings) {
                     "C03.returns"
                 } else if rest.starts_with("C17") {
                     "C17.same_rules"
+                } else if rest.starts_with("C20") {
+                    "C20.readable"
                 } else {
                     "C16.views"
                 };
